@@ -230,6 +230,32 @@ func c12FilterCheck(run *Run, r *rand.Rand) {
 	if r.Intn(8) > 0 {
 		event["t"] = pick(r, []string{"a", "b"})
 	}
+	c12FilterEval(run, tree, event, vars)
+}
+
+// replay of a recorded filter case
+func c12FilterReplay(run *Run, input json.RawMessage) bool {
+	var in struct {
+		Filter *c12FNode `json:"filter"`
+		Event  struct {
+			Data map[string]any `json:"data"`
+		} `json:"event"`
+		Variables map[string]any `json:"variables"`
+	}
+	dec := json.NewDecoder(strings.NewReader(string(input)))
+	dec.UseNumber()
+	if dec.Decode(&in) != nil || in.Filter == nil {
+		return false
+	}
+	if in.Variables == nil {
+		in.Variables = map[string]any{}
+	}
+	c12FilterEval(run, in.Filter, in.Event.Data, in.Variables)
+	run.Count("replay")
+	return true
+}
+
+func c12FilterEval(run *Run, tree *c12FNode, event map[string]any, vars map[string]any) {
 	data, _ := json.Marshal(map[string]any{"data": event})
 	vb, _ := json.Marshal(vars)
 	in := map[string]any{"filter": tree, "event": json.RawMessage(data), "variables": json.RawMessage(vb)}
